@@ -18,7 +18,7 @@ pub fn property() -> Property {
     Property {
         id: "C20",
         level: "exploration",
-        rule: "family `session_bytes` (Lab-M, mutational): a generated frame sequence for an established real session in either role - every command for every role, stream ids {0, 2, 3, 4, 0xFFFFFFFF}, payloads up to a few KiB, settings payloads (text, binary, huge values), pushed padding schemes (parsable with sizes up to 2^63-1, unparsable) - mutated by bit flips, truncation, duplication, reordering and length-field corruption, or raw random bytes; delivered in generated fragments; followed by normal use of a sibling stream opened beforehand and of the write path (so that a poisoned scheme is exercised). Monitors: panics in any task (process-wide hook), largest single allocation, virtual-time quiescence (a spinning task stops the virtual clock: real-time watchdog, confirmed by re-running the saved case in a child process), every call returns under the virtual watchdog; afterwards the session is either closed with its waiters released or the sibling still transfers its bytes exactly and the outgoing wire still parses. Family `parsers`: arbitrary and mutated bytes in arbitrary chunking into the private destination / UDP-over-TCP parsers (H5), differential with the reference where the input is valid. Family `http_head` (pure): well-formed requests and a table of hostile request lines / host values, mutated by overwrites, insertions of multi-byte and separator sequences at every position, truncation, or raw bytes, into the HTTP front-end's header-end finder and parse+rewrite functions (H6): no panic, no oversized allocation, header end = first CRLFCRLF (what becomes of a malformed request that is accepted is judged at the listener). Family `socks` (Lab-S, shared with C16): generated and malformed greetings / requests in generated segmentations against the real SOCKS5 listener, with a neighbour connection, optionally another client that sits on the listener with 0-2 bytes of its greeting sent, and a fresh valid connection afterwards (others must be served within 8 s). Family `http_listener` (Lab-S): mutated and random header blocks against the real HTTP listener with a healthy neighbour and a fresh request afterwards. Non-trivial = input that differs from valid traffic and selects >= 2 distinct frame handlers (session_bytes), or is not rejected at its first byte (parsers/listener). Distinct = distinct serialized case. The libFuzzer targets in /verif/fuzz feed the same oracles from bytes in the thorough tier. Family `http_head` (pure): a well-formed generated request, one of 30 hostile request lines / host values, or raw bytes, mutated by up to 3 byte overwrites (separators, UTF-8 lead/continuation bytes, CR, LF, random), up to 3 insertions (multi-byte characters, CR/LF, NUL, ':', '[', ']', '://', '@', ...) and truncation, plus a multi-byte character inserted at every position of every hostile template; oracle: no panic, no oversized allocation, header end = first CRLFCRLF.",
+        rule: "family `session_bytes` (Lab-M, mutational): a generated frame sequence for an established real session in either role - every command for every role, stream ids {0, 2, 3, 4, 0xFFFFFFFF}, payloads up to a few KiB, settings payloads (text, binary, huge values), pushed padding schemes (parsable with sizes up to 2^63-1, unparsable) - mutated by bit flips, truncation, duplication, reordering and length-field corruption, or raw random bytes; delivered in generated fragments; followed by normal use of a sibling stream opened beforehand and of the write path (so that a poisoned scheme is exercised). Monitors: panics in any task (process-wide hook), largest single allocation, virtual-time quiescence (a spinning task stops the virtual clock: real-time watchdog, confirmed by re-running the saved case in a child process), every call returns under the virtual watchdog; afterwards the session is either closed with its waiters released or the sibling still transfers its bytes exactly and the outgoing wire still parses. Family `parsers`: arbitrary and mutated bytes in arbitrary chunking into the private destination / UDP-over-TCP parsers (H5), differential with the reference where the input is valid. Family `http_head` (pure): well-formed requests and a table of hostile request lines / host values, mutated by overwrites, insertions of multi-byte and separator sequences at every position, truncation, or raw bytes, into the HTTP front-end's header-end finder and parse+rewrite functions (H6): no panic, no oversized allocation, header end = first CRLFCRLF (what becomes of a malformed request that is accepted is judged at the listener). Family `socks` (Lab-S, shared with C16): generated and malformed greetings / requests in generated segmentations against the real SOCKS5 listener, with a neighbour connection, optionally another client that sits on the listener with 0-2 bytes of its greeting sent, and a fresh valid connection afterwards (others must be served within 8 s). Family `http_listener` (Lab-S): mutated and random header blocks against the real HTTP listener with a healthy neighbour and a fresh request afterwards. Non-trivial = input that differs from valid traffic and selects >= 2 distinct frame handlers (session_bytes), or is not rejected at its first byte (parsers/listener). Distinct = distinct serialized case. The libFuzzer targets in /verif/fuzz feed the same oracles from bytes in the thorough tier. Family `http_head` (pure): a well-formed generated request, one of 30 hostile request lines / host values, or raw bytes, mutated by up to 3 byte overwrites (separators, UTF-8 lead/continuation bytes, CR, LF, random), up to 3 insertions (multi-byte characters, CR/LF, NUL, ':', '[', ']', '://', '@', ...) and truncation, plus a multi-byte character inserted at every position of every hostile template; oracle: no panic, no oversized allocation, header end = first CRLFCRLF. In the http_listener family a header block without its CRLFCRLF terminator followed by the application's end-of-stream must make the listener let go of the connection within 10 s (C20.spin).",
         assumptions: vec![
             "tokio swallows panics of spawned tasks: they are counted by a process-wide hook on the worker's own thread (current-thread runtime)",
             "a peer may legitimately address the sibling stream or leave its byte stream inside an unfinished frame: the sibling oracle applies only when the hostile bytes end on a frame boundary and do not address the sibling",
